@@ -1450,6 +1450,8 @@ class AdapterIndex:
         Match a query string against all adapters and return a Match that represents
         the best match or None if no match was found
         """
+        if len(sequence) < self._length:
+            return None
         affix = self._make_affix(sequence.upper(), self._length)
         if "N" in affix:
             result = self._lookup_with_n(affix)
@@ -1481,6 +1483,8 @@ class AdapterIndex:
             if length < best_m:
                 # No chance of getting the same or a higher number of matches, so we can stop early
                 break
+            if length > len(sequence):
+                continue
             affix = self._make_affix(affix, length)
             if "N" in affix:
                 result = self._lookup_with_n(affix)
